@@ -347,6 +347,9 @@ func runC10(c *Ctx) {
 		c.Check(bad == "", "R10.5", FuncName(f)+" :: returned bytes are owned by the caller", fpos(f), "fresh", "the returned slice shares storage with "+bad+": the next call overwrites bytes the caller (the backing store) still holds")
 	}
 
+	// ---------- R10.6 what was persisted is what the store keeps serving
+	c.Import(runC19, "R19.3", "pkg/resource.Finalizers)", "R10.6", "E3", "Finalizers.Add/Remove write only to storage created in the same call: an update whose persist step failed (built on a copy of the stored resource) cannot alter the in-memory resource that stays in place", 2)
+
 }
 
 func loadGate(c *Ctx, rule string) {
